@@ -5,6 +5,7 @@ import (
 	"encoding/json"
 	"fmt"
 	"sort"
+	"strings"
 
 	metav1 "k8s.io/apimachinery/pkg/apis/meta/v1"
 	"k8s.io/apimachinery/pkg/apis/meta/v1/unstructured"
@@ -173,7 +174,8 @@ func Draw(t *sim.Tape, p DrawParams) *Workload {
 			if t.Next(4) == 0 {
 				st.Ops = append(st.Ops, simfn.Op{"op": "require", "mode": "narrow", "report": "y"})
 			}
-			for _, sn := range []string{"creds-a", "creds-b"} {
+			// (a secret of the same name exists in two namespaces with different data)
+			for _, sn := range []string{"crossplane-system/creds-a", "crossplane-system/creds-b", "team-b/creds-a"} {
 				if t.Next(3) == 0 {
 					st.Creds = append(st.Creds, sn)
 				}
@@ -254,8 +256,12 @@ func (wl *Workload) Composition() *v1.Composition {
 			b, _ := json.Marshal(in)
 			ps := v1.PipelineStep{Step: st.Name, FunctionRef: v1.FunctionReference{Name: st.Fn}, Input: &kruntime.RawExtension{Raw: b}}
 			for _, sn := range st.Creds {
-				ps.Credentials = append(ps.Credentials, v1.FunctionCredentials{Name: sn, Source: v1.FunctionCredentialsSourceSecret,
-					SecretRef: &xpv1.SecretReference{Namespace: "crossplane-system", Name: sn}})
+				ns, n := "crossplane-system", sn
+				if i := strings.Index(sn, "/"); i >= 0 {
+					ns, n = sn[:i], sn[i+1:]
+				}
+				ps.Credentials = append(ps.Credentials, v1.FunctionCredentials{Name: strings.ReplaceAll(sn, "/", "."), Source: v1.FunctionCredentialsSourceSecret,
+					SecretRef: &xpv1.SecretReference{Namespace: ns, Name: n}})
 			}
 			c.Spec.Pipeline = append(c.Spec.Pipeline, ps)
 		}
